@@ -597,6 +597,12 @@ func lookupdPublicView(httpAddr string, tcpPort int, topics []string) (nodeTopic
 
 // ---------------------------------------------------------------- a minimal nsqd consumer (protocol V2)
 func consume(tcpAddr, topic, channel string, want int, deadline time.Duration) ([]string, error) {
+	return consumeUntil(tcpAddr, topic, channel, want, "", deadline)
+}
+
+// consumeUntil reads (and FINs) messages until `want` have arrived, or, when until != "",
+// until a message with that body has arrived (earlier backlog is drained).
+func consumeUntil(tcpAddr, topic, channel string, want int, until string, deadline time.Duration) ([]string, error) {
 	c, err := net.DialTimeout("tcp", tcpAddr, time.Second)
 	if err != nil {
 		return nil, err
@@ -606,13 +612,16 @@ func consume(tcpAddr, topic, channel string, want int, deadline time.Duration) (
 	w := bufio.NewWriter(c)
 	w.WriteString("  V2")
 	fmt.Fprintf(w, "SUB %s %s\n", topic, channel)
-	fmt.Fprintf(w, "RDY %d\n", want)
+	fmt.Fprintf(w, "RDY %d\n", 1)
 	if err := w.Flush(); err != nil {
 		return nil, err
 	}
 	r := bufio.NewReader(c)
 	var got []string
-	for len(got) < want {
+	for {
+		if until == "" && len(got) >= want {
+			break
+		}
 		var hdr [8]byte
 		if _, err := io.ReadFull(r, hdr[:]); err != nil {
 			return got, err
@@ -640,6 +649,11 @@ func consume(tcpAddr, topic, channel string, want int, deadline time.Duration) (
 			id := body[10:26]
 			got = append(got, string(body[26:]))
 			c.Write(append(append([]byte("FIN "), id...), '\n'))
+			if until != "" && string(body[26:]) == until {
+				c.Write([]byte("CLS\n"))
+				return got, nil
+			}
+			c.Write([]byte("RDY 1\n"))
 		}
 	}
 	c.Write([]byte("CLS\n"))
